@@ -12,6 +12,7 @@ import (
 	"os/exec"
 	"strconv"
 	"strings"
+	"testing/iotest"
 
 	"github.com/openacid/low/pbcmpl"
 
@@ -42,7 +43,7 @@ func init() {
 	mc.Register(&mc.Property{
 		ID:    "C07",
 		Level: "fault_enumeration",
-		Rule: "E3 fault enumeration: (truncation) every frame of a 40-frame alphabet (4 message kinds × body lengths 0..200) × EVERY cut point k < len(frame) × reader chunkings {whole, 1 byte at a time, and every chunking with ≤1 (thorough ≤2) extra deviations: short read at any byte, data together with io.EOF, one empty read}, and four frames with bodies of 1..3 MiB × cut points within ±1 of m·2^p (p = 9..22, m = 1..3, measured from the frame and from the body start) × {whole, 4 KiB, 64 KiB chunks}: never success, n = k, cause io.EOF for k=0, io.ErrUnexpectedEOF otherwise, either one for k=32; " +
+		Rule: "E3 fault enumeration: (truncation) every frame of a 40-frame alphabet (4 message kinds × body lengths 0..200) × EVERY cut point k < len(frame) × reader chunkings {whole, 1 byte at a time, and every chunking with ≤1 (thorough ≤2) extra deviations: short read at any byte, data together with io.EOF, one empty read}, the same cuts through 11 standard-library reader types (bytes.Reader, bytes.Buffer, strings.Reader, bufio.Reader of 16/32/64/4096 bytes, io.LimitedReader, io.SectionReader, iotest.OneByteReader, iotest.DataErrReader - code may special-case a reader's dynamic type), and four frames with bodies of 1..3 MiB × cut points within ±1 of m·2^p (p = 9..22, m = 1..3, measured from the frame and from the body start) × {whole, 4 KiB, 64 KiB chunks}: never success, n = k, cause io.EOF for k=0, io.ErrUnexpectedEOF otherwise, either one for k=32; " +
 			"(corrupt header, in a memory-limited worker process) header-size field × body-size field alphabets (0, len±1, 2^31, 2^32, 2^40, 2^47, 2^48, 2^62, 2^63-1, 2^63, 2^63+1, 2^64-1 …) × version bytes {ASCII, 0xff, NUL} × {0, 5, all} body bytes present: header size ≠ 32 ⇒ ErrInvalidHeaderSize after exactly 32 bytes; otherwise success iff the declared body is completely present; never a panic, never a dead process; ReadHeader on every prefix 0..40 of arbitrary bytes returns normally; " +
 			"(writer faults) every frame × EVERY byte budget k ≤ len(frame) × {partial write with error, refusal with count 0}: Marshal returns that error and the count of accepted bytes, which are exactly frame[:count]; (read errors) a non-EOF error injected at every offset, alone or together with the last bytes, under whole and 1-byte chunkings: no success unless the frame was delivered completely, n = bytes delivered. A case is one (frame, fault point, mode); non-trivial when the fault point is inside the frame (0 < k < len).",
 		Assumptions: []string{
@@ -89,6 +90,61 @@ func c07Trunc(f c06Frame, k int, env *mc.Env, uniform int) (got, want string) {
 		want = "n=32 err=ErrUnexpectedEOF"
 		if name == "EOF" {
 			name = "ErrUnexpectedEOF" // either one is tolerated for a cut exactly after the header
+		}
+	default:
+		want = fmt.Sprintf("n=%d err=ErrUnexpectedEOF", k)
+	}
+	return fmt.Sprintf("n=%d err=%s", n, name), want
+}
+
+// ---- standard-library reader types (code may special-case a reader's dynamic type)
+
+var c07StdReaders = []string{"bytes.Reader", "bytes.Buffer", "strings.Reader", "bufio16", "bufio32", "bufio64", "bufio4096", "io.LimitedReader", "io.SectionReader", "iotest.OneByte", "iotest.DataErr"}
+
+func c07StdReader(kind string, data []byte) io.Reader {
+	switch kind {
+	case "bytes.Reader":
+		return bytes.NewReader(data)
+	case "bytes.Buffer":
+		return bytes.NewBuffer(append([]byte(nil), data...))
+	case "strings.Reader":
+		return strings.NewReader(string(data))
+	case "bufio16":
+		return bufio.NewReaderSize(bytes.NewReader(data), 16)
+	case "bufio32":
+		return bufio.NewReaderSize(bytes.NewReader(data), 32)
+	case "bufio64":
+		return bufio.NewReaderSize(bytes.NewReader(data), 64)
+	case "bufio4096":
+		return bufio.NewReaderSize(bytes.NewReader(data), 4096)
+	case "io.LimitedReader":
+		return io.LimitReader(bytes.NewReader(append(append([]byte(nil), data...), "trailing garbage"...)), int64(len(data)))
+	case "io.SectionReader":
+		return io.NewSectionReader(bytes.NewReader(append([]byte("xx"), data...)), 2, int64(len(data)))
+	case "iotest.OneByte":
+		return iotest.OneByteReader(bytes.NewReader(data))
+	case "iotest.DataErr":
+		return iotest.DataErrReader(bytes.NewReader(data))
+	}
+	panic("unknown reader kind " + kind)
+}
+
+func c07TruncStd(f c06Frame, k int, kind string) (got, want string) {
+	defer func() {
+		if e := recover(); e != nil {
+			got += fmt.Sprint(" panic: ", e)
+		}
+	}()
+	wire := c06Wire(f)
+	n, _, err := pbcmpl.Unmarshal(c07StdReader(kind, wire[:k]), c06Empty(f.Kind))
+	name := errName(err)
+	switch {
+	case k == 0:
+		want = "n=0 err=EOF"
+	case k == 32:
+		want = "n=32 err=ErrUnexpectedEOF"
+		if name == "EOF" {
+			name = "ErrUnexpectedEOF"
 		}
 	default:
 		want = fmt.Sprintf("n=%d err=ErrUnexpectedEOF", k)
@@ -374,9 +430,10 @@ func c07Run(c *mc.Ctx) {
 	// closed form for the enumerated parts (thorough adds a choice-tree part with no closed form)
 	for _, f := range frames {
 		l := int64(len(c06Wire(f)))
-		c.Expect(2 * l)       // truncation: whole + 1-byte chunking for every k < len
-		c.Expect(2 * (l + 1)) // writer faults: every budget 0..len × 2 modes
-		c.Expect(4 * (l + 1)) // read errors: every offset 0..len × alone/together × 2 chunkings
+		c.Expect(2 * l)                         // truncation: whole + 1-byte chunking for every k < len
+		c.Expect(int64(len(c07StdReaders)) * l) // the same cuts through every standard-library reader type
+		c.Expect(2 * (l + 1))                   // writer faults: every budget 0..len × 2 modes
+		c.Expect(4 * (l + 1))                   // read errors: every offset 0..len × alone/together × 2 chunkings
 	}
 	c.Par(len(frames), func(fi int) {
 		if c.TooMany() {
@@ -417,6 +474,18 @@ func c07Run(c *mc.Ctx) {
 				evals += st.Executions - 1
 				nontriv += st.Executions - 1
 				c.Add("truncation_executions_with_extra_deviation", st.Executions-1)
+			}
+		}
+		for k := 0; k < len(wire); k++ {
+			for ri, rk := range c07StdReaders {
+				g, w := c07TruncStd(f, k, rk)
+				if g != w {
+					c.Fail(7<<48|int64(fi)<<32|int64(k)<<8|int64(ri), "truncation/std", "truncation/std", c07Case{Frame: &fc, Cut: k, Mode: rk}, g, w)
+				}
+				evals++
+				if k > 0 {
+					nontriv++
+				}
 			}
 		}
 		c.Add("truncation_cases", evals)
@@ -581,6 +650,8 @@ func c07Judge(kind string, cs c07Case) (got, want string) {
 			env = mc.NewEnv(cs.Choices)
 		}
 		return c07Trunc(*cs.Frame, cs.Cut, env, cs.Uniform)
+	case "truncation/std":
+		return c07TruncStd(*cs.Frame, cs.Cut, cs.Mode)
 	case "writer":
 		return c07WriterFault(*cs.Frame, cs.Budget, cs.Mode)
 	case "readerror":
